@@ -963,14 +963,19 @@ func c13PanicSite() string {
 // ---------------------------------------------------------------- generator
 
 type c13Gen struct {
-	rng    *Rng
-	hot    []*c13Key
-	c      *Case
-	ints   bool // the case contains an inline object with an integer field
-	exotic int  // number of exotic scalars in inline payloads
+	rng        *Rng
+	hot        []*c13Key
+	c          *Case
+	ints       bool      // the case contains an inline object with an integer field
+	exotic     int       // number of exotic scalars in inline payloads
+	only       []*c13Key // when set: every document addresses one of these objects
+	statusBias int       // percentage of patches forced to subresource "/status" + ignoreHookError
 }
 
 func (g *c13Gen) key() *c13Key {
+	if len(g.only) > 0 {
+		return PickOne(g.rng, g.only)
+	}
 	if g.rng.Chance(85) {
 		return PickOne(g.rng, g.hot)
 	}
@@ -1118,6 +1123,11 @@ func (g *c13Gen) genPatch() c13Doc {
 		m["subresource"] = sub
 	}
 	im, ihe := rng.Chance(40), rng.Chance(20)
+	if g.statusBias > 0 && rng.Chance(g.statusBias) {
+		// what survives a failed hook: a patch of the subresource "/status" marked ignoreHookError
+		sub, subID, ihe = "/status", 2, true
+		m["subresource"] = sub
+	}
 	if im || rng.Chance(20) {
 		m["ignoreMissingObject"] = im
 	}
@@ -1412,18 +1422,10 @@ func c13RunCase(c *Case, rng *Rng, init map[int]c13Obj, initTok string, docs []c
 // gives every case an unrelated stream and keeps (seed, case) replays exact.
 func c13Reseed(rng *Rng) *Rng { return NewRng(rng.U64() ^ 0xD1B54A32D192ED03) }
 
-func c13Random(c *Case, rng *Rng) {
-	rng = c13Reseed(rng)
-	g := &c13Gen{rng: rng, c: c}
-	nhot := rng.Range(1, 3)
-	for i := 0; i < nhot; i++ {
-		if rng.Chance(90) {
-			g.hot = append(g.hot, PickOne(rng, c13Pool[:8]))
-		} else {
-			g.hot = append(g.hot, PickOne(rng, c13Pool[8:]))
-		}
-	}
-	init, initTok := c13Init(rng, g.hot)
+// stream generates one patch file: 1-6 documents, valid / one invalid document / an invalid document
+// behind its valid twin / truncated.
+func (g *c13Gen) stream(c *Case) ([]c13Doc, bool, string) {
+	rng := g.rng
 	n := rng.Range(1, 6)
 	var docs []c13Doc
 	for i := 0; i < n; i++ {
@@ -1466,6 +1468,23 @@ func c13Random(c *Case, rng *Rng) {
 		garbled = true
 		mode = "truncated"
 	}
+	return docs, garbled, mode
+}
+
+func c13Random(c *Case, rng *Rng) {
+	rng = c13Reseed(rng)
+	g := &c13Gen{rng: rng, c: c}
+	nhot := rng.Range(1, 3)
+	for i := 0; i < nhot; i++ {
+		if rng.Chance(90) {
+			g.hot = append(g.hot, PickOne(rng, c13Pool[:8]))
+		} else {
+			g.hot = append(g.hot, PickOne(rng, c13Pool[8:]))
+		}
+	}
+	init, initTok := c13Init(rng, g.hot)
+	docs, garbled, mode := g.stream(c)
+	n := len(docs)
 	// the history of the other clients: changes of somebody else that land between a Get and the
 	// Update of an operation that writes under the optimistic lock (CreateOrUpdate, JQPatch)
 	var writers []c13Writer
@@ -1535,6 +1554,12 @@ func runC13(r *Run) {
 		"JQPatch of the stream updates, each landing right before the next Update of that object, which a reactor on the fake client then answers " +
 		"409 Conflict; the stream is rendered as JSON and as YAML, both are run through the real " +
 		"ParseOperations + ExecuteOperations on a fresh kube-client/fake cluster and compared with each other and with the model. " +
+		"25% of the values of inline payloads are scalars the two decoders type differently (integers around and above the int64 range, " +
+		"exponents, hex/octal, unquoted timestamps, booleans, strings that look like another type, long strings), written in YAML in one of their spellings. " +
+		"Operator-level cases (64 quick / 700 thorough + 4 corpus): 1-2 executions through the real taskHandler -> handleRunHook -> Hook.Run with a real " +
+		"bash hook that writes such a stream into $KUBERNETES_PATCH_PATH and exits 0 (60%) or non-zero (40%; then 60% of the patches are /status patches " +
+		"with ignoreHookError), the two executions (70%: the same hook in two queues) overlapping in a random interleaving of launch / write / exit " +
+		"events enforced with marker files; every execution addresses its own objects and is judged on them. " +
 		"Non-trivial = at least 2 documents; distinct = distinct op-line sequence."
 	// corpus: the observed defect (YAML Create with an integer field) and hand-written order/validity cases
 	r.One(0, func(c *Case, rng *Rng) {
@@ -1660,8 +1685,12 @@ func runC13(r *Run) {
 			})
 		}
 	}
+	c13OperatorCorpus(r, 13)
 	n := r.N(400, 6000)
 	r.Cases(100, n, 64, c13Random)
+	// operator-level: real hook processes, Hook.Run, handleRunHook (hook succeeded / failed), two
+	// executions overlapping in a prescribed interleaving (see c13_operator.go)
+	r.Cases(20000, r.N(64, 700), 16, c13OperatorRandom(r))
 
 	if r.Thorough() {
 		// exhaustive small scope: every stream of 1-3 documents over a 12-symbol alphabet (3 create
